@@ -121,6 +121,8 @@ def cases(tier, seed):
                 out.append({"k": "reduce", "s": list(shape), "rot": rot, "v": var})
         out.append({"k": "diff", "s": list(shape)})
     out.append({"k": "ediff1d"})
+    for i in range(len(space.long_array_specs())):
+        out.append({"k": "long", "i": i})
     out.append({"k": "twins"})
     out.append({"k": "innerouter"})
     out.append({"k": "matmul"})
@@ -184,6 +186,39 @@ def run_case(case, R):
             judge(R, f"outer twin {i}", "outer", lambda: numpoly.outer(p, p), lambda: numpy.outer(mo, mo), ["twins"])
             judge(R, f"inner twin {i}", "inner", lambda: numpoly.inner(p, p), lambda: numpy.inner(mo, mo), ["twins"])
             judge(R, f"diff twin {i}", "diff", lambda: numpoly.diff(p), lambda: m.map(numpy.diff), ["twins"])
+    elif k == "long":
+        # arrays with 65 .. 130 elements along an axis: sums, cumulative sums, differences and contractions over the long axis
+        lab, sp = space.long_array_specs()[case["i"]]
+        p, m = build_checked(sp), model_of(sp)
+        mo = to_obj(m)
+        shape = tuple(sp["s"])
+        R.state(("long", lab))
+        tags = ["long"]
+        for ax in [None] + list(range(len(shape))):
+            for spn, f in (("numpoly", lambda: numpoly.sum(p, axis=ax)), ("numpy", lambda: numpy.sum(p, axis=ax)), ("method", lambda: p.sum(axis=ax))):
+                judge(R, f"sum[{spn}] {lab} axis={ax}", "sum", f, lambda: m.map(lambda c: numpy.sum(c, axis=ax)), tags)
+            judge(R, f"mean {lab} axis={ax}", "mean", lambda: numpoly.mean(p, axis=ax), lambda: m.map(lambda c: numpy.sum(c, axis=ax)) * V.const(Fraction(1, p.size if ax is None else shape[ax])), tags, close=True)
+            judge(R, f"cumsum {lab} axis={ax}", "cumsum", lambda: numpoly.cumsum(p, axis=ax), lambda: m.map(lambda c: numpy.cumsum(c, axis=ax)), tags)
+            if ax is not None:
+                judge(R, f"diff {lab} axis={ax}", "diff", lambda: numpoly.diff(p, axis=ax), lambda: m.map(lambda c: numpy.diff(c, axis=ax)),
+                      tags + ["empty_result" if shape[ax] <= 1 else "nonempty_result"])
+                judge(R, f"add.reduce {lab} axis={ax}", "sum", lambda: numpy.add.reduce(p, axis=ax), lambda: m.map(lambda c: numpy.sum(c, axis=ax)), tags)
+        judge(R, f"ediff1d {lab}", "ediff1d", lambda: numpoly.ediff1d(p), lambda: m.map(lambda c: numpy.ediff1d(c)), tags)
+        # contractions over the long axis: as row x column, matrix x matrix^T, inner of the flattened arrays
+        flat = p.reshape(-1)
+        mflat = mo.reshape(-1)
+        n = flat.shape[0]
+        a2, b2 = p.reshape(1, n) if len(shape) == 1 else p, (p.reshape(n, 1) if len(shape) == 1 else p.T)
+        ma2, mb2 = (mo.reshape(1, n) if len(shape) == 1 else mo), (mo.reshape(n, 1) if len(shape) == 1 else mo.T)
+        for spn, f in (("numpoly", lambda: numpoly.matmul(a2, b2)), ("numpy", lambda: numpy.matmul(a2, b2)), ("operator", lambda: a2 @ b2)):
+            judge(R, f"matmul[{spn}] {lab}: {a2.shape}@{b2.shape}", "matmul", f, lambda: numpy.matmul(ma2, mb2), tags + [f"x1_ndim=2", "x2_ndim=2"])
+        nums = (numpy.arange(b2.shape[0] * 2).reshape(b2.shape[0], 2) % 5) - 2
+        judge(R, f"matmul {lab}: {a2.shape}@ndarray{nums.shape}", "matmul", lambda: a2 @ nums, lambda: numpy.matmul(ma2, nums.astype(object)), tags + ["numeric_operand"])
+        judge(R, f"inner {lab} flattened", "inner", lambda: numpoly.inner(flat, flat), lambda: numpy.inner(mflat, mflat), tags + ["inner", "vectors"])
+        if len(shape) == 1:
+            short = build_checked(filled((3,), 1))
+            mshort = to_obj(model_of(filled((3,), 1)))
+            judge(R, f"outer {lab} x (3,)", "outer", lambda: numpoly.outer(p, short), lambda: numpy.outer(mo, mshort), tags + ["outer"])
     elif k == "diff":
         shape = tuple(case["s"])
         nd = len(shape)
